@@ -286,6 +286,10 @@ def rule_folding(rep):
             top_some = arm["body"].get("k") == "Call" and arm["body"]["func"].get("path") == "Some"
             rep.ob("R5-ir-fold-none-propagates", key, not defaults and not top_some, IRC, arm["l"],
                    f"folding of {op} turns the evaluator's `None` (the program reverts at run time) into a constant ({defaults or 'Some(..)'})")
+        casts = sorted({n["ty"] for n in tab.walk(arm["body"]) if n.get("k") == "Cast" and re.fullmatch(r"u8|u16|u32|i8|i16|i32|usize", n.get("ty", ""))})
+        rep.ob("R5-ir-fold-no-truncating-cast", key, not casts, IRC, arm["l"],
+               f"folding of {op} narrows an operand with `as {casts[0] if casts else ''}`: the cast silently drops the high bits (a shift amount of 2^32 + 2 becomes 2), so the "
+               "fold produces a value where the VM computes another one; a checked conversion (`try_from(..).ok()`) declines to fold instead")
         # operand order: receiver is the left constant, argument the right one
         names = [e["elems"][0].get("name") if e.get("elems") and e["elems"][0].get("k") == "PIdent" else None for e in pat["elems"][1:]]
         order_ok = True
@@ -345,6 +349,8 @@ def rule_folding(rep):
             rep.ob("R7-const-eval-evaluator", key, bool(used) and used <= INTR[op], CE, a["l"],
                    f"compile-time evaluation of __{op.lower()} uses {sorted(used)}; it must use {sorted(INTR[op])} so that an operation that reverts at run time "
                    "is a compile error, not a constant")
+            casts = sorted({n["ty"] for n in tab.walk(a["body"]) if n.get("k") == "Cast" and re.fullmatch(r"u8|u16|u32|i8|i16|i32|usize", n.get("ty", ""))})
+            rep.ob("R7-const-eval-no-truncating-cast", key, not casts, CE, a["l"], f"compile-time evaluation of __{op.lower()} narrows an operand with `as {casts[0] if casts else ''}`")
             defaults = sorted({n["method"] for n in tab.walk(a["body"]) if n.get("k") == "MethodCall" and re.match(r"(unwrap|expect|or$|or_else$|map_or)", n["method"])})
             rep.ob("R7-const-eval-none-propagates", key, not defaults, CE, a["l"], f"compile-time evaluation of __{op.lower()} replaces a failed evaluation by a default ({defaults})")
         # the None of the evaluator becomes an error, not a constant
